@@ -50,13 +50,17 @@ def _call(arg):
     from mc import core
 
     # the logging configuration is part of the environment: odd tasks run with DEBUG logging and a formatting handler
-    core.set_logging("debug" if idx % 2 else "off")
+    dbg = ((idx * 2654435761 + 0x9E3779B9) >> 9) & 1  # decorrelated from the structure of the task list
+    core.set_logging("debug" if dbg else "off")
+    from mc import vclock
+
+    vclock.reset()
     try:
         res = _guard(fn, task)
     finally:
         core.set_logging("off")
     if hasattr(res, "c"):
-        res.c["tasks_logging_" + ("debug" if idx % 2 else "off")] = res.c.get("tasks_logging_" + ("debug" if idx % 2 else "off"), 0) + 1
+        res.c["tasks_logging_" + ("debug" if dbg else "off")] = res.c.get("tasks_logging_" + ("debug" if dbg else "off"), 0) + 1
     return idx, res
 
 
